@@ -254,6 +254,18 @@ def common_names(D, S):
     return sorted(set(spec_subs(D)) & set(spec_subs(S)))
 
 
+def ctrl_sig(tok):
+    """ControlSpace::computeSignature of a protocol token: ["c:"] comp ("+" comp)*, comp = r<d> | d"""
+    forced = tok.startswith("c:")
+    comps = (tok[2:] if forced else tok).split("+")
+    bodies = [[2, 1] if c == "d" else [1, int(c[1:])] for c in comps]
+    if len(bodies) == 1 and not forced:
+        body = bodies[0]
+    else:
+        body = [0, sum(b[1] for b in bodies)] + [x for b in bodies for x in b]
+    return [len(body)] + body
+
+
 def atom_bytes(a):
     if a[0] == 'f':
         return struct.pack("<Q", int(a[1:]))
@@ -641,6 +653,14 @@ def gen_pd_script(r, big=False, quick=True):
     sc.add("pdstore 2 %d" % r.below(1 << 30), op="pdstore", sp=A, sp2=B)
     if r.chance(1, 2):
         sc.add("pdreload", op="pdreload")
+    if cdim is not None:
+        # the same archive offered to PlannerData objects over other CONTROL spaces (other dimension, discrete, compound),
+        # with the same and with another state space: accepted exactly when both signatures match
+        toks = ["r%d" % (cdim + 1), "d", "c:r%d" % cdim, "r%d+d" % cdim, "d+d", "r1+r%d" % cdim] + (["r%d" % (cdim - 1)] if cdim > 1 else [])
+        r.shuffle(toks)
+        toks = ["r%d" % cdim] + toks[:r.range(2, 4)]
+        r.shuffle(toks)
+        sc.add("pdctl 2 %d %s" % (len(toks), " ".join(toks)), op="pdctl", toks=toks, cdim=cdim, sp=A, sp2=B)
     if r.chance(1, 2):
         sc.add("pdcross", op="pdcross")
         sc.add("pddump", op="pddump")
@@ -891,6 +911,18 @@ def oracle(sc, impl, rc, err):
                     if tr[1] != "0":
                         fail("truncation", "PlannerDataStorage::load on a truncated stream: %s of %s offsets wrong, first %s" % (tr[1], tr[0], tr[2] if len(tr) > 2 else "?"),
                              call="PlannerDataStorage::load", kind=(tr[2].split(":")[1] if len(tr) > 2 and ":" in tr[2] else "?"))
+        elif op == "pdctl":
+            want = []
+            for tk in meta["toks"]:
+                cs_ok = ctrl_sig(tk) == ctrl_sig("r%d" % meta["cdim"])
+                want.append("s%s:%s" % (tk, "acc" if cs_ok else "rej"))
+                want.append("o%s:%s" % (tk, "acc" if cs_ok and spec_sig(meta["sp"]) == spec_sig(meta["sp2"]) else "rej"))
+            got = [] if f.get("t", "-") == "-" else f["t"].split(",")
+            badv = [g for g, w in zip(got, want) if g != w] if len(got) == len(want) else ["length"]
+            if badv:
+                fail("control-signature", "control archive offered to other (state space, control space) pairs: %s; must be accepted exactly when both "
+                     "signatures match (and then reproduce controls and durations): expected %s" % (",".join(badv), ",".join(w for g, w in zip(got, want) if g != w)),
+                     call="control::PlannerDataStorage::load")
         elif op == "pdreload":
             if f.get("ok") != "1" or x.get("threw") == "1":
                 fail("reload-used-planner-data", "load() into a PlannerData that held another graph failed: %s" % full[:100], call="pdreload")
@@ -1137,6 +1169,8 @@ def script_from_lines(lines):
             sc.pdspace = spaces[int(t[1])]
         elif op == "pdstore":
             sc.add(line, op=op, sp=sc.pdspace, sp2=spaces[int(t[1])])
+        elif op == "pdctl":
+            sc.add(line, op=op, toks=t[3:], cdim=cdim, sp=sc.pdspace, sp2=spaces[int(t[1])])
         else:
             sc.add(line, op=op)
     return sc
@@ -1269,7 +1303,7 @@ MANIFEST = {
             "empty-compound corner), getCommonSubspaces (std::set ordering and the erase loop as coded: no common subspace is lost), "
             "computeSignature, and of the StateStorage / PlannerDataStorage (geometric and control) archives at record granularity with "
             "PlannerData's start/goal bookkeeping (binary searches as coded): round trips for every graph the operations can build, marker / "
-            "signature / other-kind rejection, every proper record prefix is an error (also for edge-less graphs). Tied to libompl by "
+            "state-space AND control-space signature / other-kind rejection (accepted exactly when both signatures match), every proper record prefix is an error (also for edge-less graphs). Tied to libompl by "
             "line-by-line differential runs of the real code against the compiled model, an independent Python specification evaluated on "
             "the implementation's outputs, an exhaustive byte-level truncation sweep of the real loaders, and StateSpace.cpp/StateStorage.cpp "
             "compiled into the harness under ASan/UBSan/vptr/LSan. The open finding F31 and the repaired F29/F32 are kept as kernel-checked witnesses about the old code; the model "
